@@ -11,7 +11,7 @@ From MV Require Gen.ProtoConsts Gen.CodecSrc.
 (* the comparison functions used by the correspondence shards: imported so that they are rebuilt with this file *)
 From MV Require Model.BoltCheck Model.XCheck.
 (* ownership of the pooled frame copies (names qualified: Model.BufOwn.run ...) *)
-From MV Require Model.BufOwn Proofs.BufOwn.
+From MV Require Model.BufOwn Proofs.BufOwn Model.MetaLock Proofs.MetaLock.
 Import ListNotations.
 Open Scope N_scope.
 
@@ -98,8 +98,9 @@ Proof. vm_compute. reflexivity. Qed.
 Theorem c08_codec_src_repaired :
   MV.Gen.CodecSrc.dubbo_cmp_int = true /\ MV.Gen.CodecSrc.thrift_len_has_prefix = true /\ MV.Gen.CodecSrc.thrift_copies_frame = true /\
   MV.Gen.CodecSrc.tars_reader_in_frame = true /\ MV.Gen.CodecSrc.tars_stype_in_frame = true /\
-  MV.Gen.CodecSrc.decode_keeps_frame_copy = true /\ MV.Gen.CodecSrc.ctx_reset_puts_once = true.
-Proof. exact (conj eq_refl (conj eq_refl (conj eq_refl (conj eq_refl (conj eq_refl (conj eq_refl eq_refl)))))). Qed.
+  MV.Gen.CodecSrc.decode_keeps_frame_copy = true /\ MV.Gen.CodecSrc.ctx_reset_puts_once = true /\
+  MV.Gen.CodecSrc.dubbo_meta_unlock_every_exit = true.
+Proof. exact (conj eq_refl (conj eq_refl (conj eq_refl (conj eq_refl (conj eq_refl (conj eq_refl (conj eq_refl eq_refl))))))). Qed.
 
 (* dubbo: decodeFrame computes the frame length as HeaderLen + DataLen in uint32; with 4 GiB or more buffered the
    sum can wrap, hence the bound vlen v < 2^32 (a Go integer width, written into the model) *)
@@ -251,3 +252,20 @@ Theorem c08_early_release_refuted :
    Model.BufOwn.held s = [(2, 0); (1, 0)]%nat /\ ~ Model.BufOwn.exclusive s /\ Model.BufOwn.dup (Model.BufOwn.pl s) = 0%nat) /\
   Model.BufOwn.dup (Model.BufOwn.pl (Model.BufOwn.run true Proofs.BufOwn.lifo [Model.BufOwn.Dec 0 true; Model.BufOwn.End 0])) = 1%nat.
 Proof. exact (conj Proofs.BufOwn.own_early_release_refuted Proofs.BufOwn.own_early_release_immediate). Qed.
+
+
+(* ===== LIVENESS THROUGH PROCESS-WIDE STATE: the dubbo service metadata registries (one sync.RWMutex each; Find / Contains on
+   the decode path of every connection of an ingress_dubbo / egress_dubbo listener with the peer's path and version, Register
+   / Clear on pub/sub events; unlocked by hand).  Model/MetaLock.v: the reader-writer lock with a leaked read lock never
+   released.  With every exit releasing what it acquired (source switch dubbo_meta_unlock_every_exit, read over all return
+   statements of Find, Contains, Register, Clear), EVERY sequence of calls - whatever exits the peers' inputs select - and
+   registry writes completes.  With one exit that does not unlock: one request that takes it is decoded normally, the next
+   registry write waits for ever, and after that every call of every connection waits for ever. ===== *)
+Theorem c08_metadata_lock_live :
+  forall ops, Forall (eq Model.MetaLock.Done) (Model.MetaLock.runl (negb dubbo_meta_unlock_every_exit) Model.MetaLock.lk0 ops).
+Proof. exact Proofs.MetaLock.meta_lock_live. Qed.
+Print Assumptions c08_metadata_lock_live.
+Theorem c08_metadata_lock_leak_wedges : forall ops,
+  exists rest, Model.MetaLock.runl true Model.MetaLock.lk0 (Model.MetaLock.Find true :: Model.MetaLock.Write :: ops)
+               = Model.MetaLock.Done :: Model.MetaLock.Blocked :: rest /\ Forall (eq Model.MetaLock.Blocked) rest.
+Proof. exact Proofs.MetaLock.meta_lock_leak_wedges. Qed.
